@@ -80,16 +80,24 @@ let sem_crossing_of_sexp = function
     { Sem.c_factors = list_of_sexp nat_of_sexp fs; Sem.c_first = nat_of_sexp first; Sem.c_chunk = nat_of_sexp chunk;
       Sem.c_mult = list_of_sexp (function L [c; m] -> (list_of_sexp nat_of_sexp c, nat_of_sexp m) | _ -> failwith "mult") mult }
   | _ -> failwith "crossing"
-(* run-length / count constraints are parsed; every other kind becomes a KExclude placeholder, which the
-   guard nestable_b of Front/NestSem.v rejects *)
+(* constraints: same wire format as extract/drv_design.ml *)
+let sem_kind_of_sexp = function
+  | L [A "atmost"; k] -> Sem.KAtMost (nat_of_sexp k)
+  | L [A "atleast"; k] -> Sem.KAtLeast (nat_of_sexp k)
+  | L [A "exactlyrow"; k] -> Sem.KExactlyInARow (nat_of_sexp k)
+  | L [A "exactlyk"; k] -> Sem.KExactlyK (nat_of_sexp k)
+  | L [A "exclude"] -> Sem.KExclude
+  | L [A "pin"; i; su] -> Sem.KPin (z_of_sexp i, nat_of_sexp su)
+  | L [A "seqn"; first; su] -> Sem.KSequential (nat_of_sexp first, nat_of_sexp su)
+  | L [A "latin"; others; nmain; first; su] ->
+    Sem.KLatin (list_of_sexp (function L [f; n] -> (nat_of_sexp f, nat_of_sexp n) | _ -> failwith "latin") others,
+                nat_of_sexp nmain, nat_of_sexp first, nat_of_sexp su)
+  | _ -> failwith "kind"
 let sem_constraint_of_sexp = function
-  | L [L [A tag; k]; f; l; ws] when tag = "atmost" || tag = "atleast" || tag = "exactlyrow" || tag = "exactlyk" ->
-    let kk = nat_of_sexp k in
-    { Sem.k_kind = (match tag with "atmost" -> Sem.KAtMost kk | "atleast" -> Sem.KAtLeast kk
-                               | "exactlyrow" -> Sem.KExactlyInARow kk | _ -> Sem.KExactlyK kk);
-      Sem.k_factor = nat_of_sexp f; Sem.k_level = nat_of_sexp l;
+  | L [k; f; l; ws] ->
+    { Sem.k_kind = sem_kind_of_sexp k; Sem.k_factor = nat_of_sexp f; Sem.k_level = nat_of_sexp l;
       Sem.k_windows = list_of_sexp (function L [a; b] -> (nat_of_sexp a, nat_of_sexp b) | _ -> failwith "win") ws }
-  | _ -> { Sem.k_kind = Sem.KExclude; Sem.k_factor = O; Sem.k_level = O; Sem.k_windows = [] }
+  | _ -> failwith "constraint"
 let simple_sem_of_sexp = function
   | L [t; fs; cs; ks] ->
     { Sem.s_trials = nat_of_sexp t; Sem.s_factors = list_of_sexp sem_factor_of_sexp fs;
@@ -142,6 +150,13 @@ let () =
   register "nestsem" (function [o; i] ->
     let so = simple_sem_of_sexp o in let si = simple_sem_of_sexp i in
     show_bool (NestSem.nestable_b so si) ^ " " ^ show_sem (NestSem.nest_sem so si)
+    | _ -> "!args");
+  (* (desugarsem f (w0 w1 ...) SEM) -> free_b  (widen f (sum ws) SEM)  (orig ws c for every copy c) *)
+  register "desugarsem" (function [f; ws; sm] ->
+    let f = nat_of_sexp f in let ws = list_of_sexp nat_of_sexp ws in let sm = simple_sem_of_sexp sm in
+    let n = Stdlib.List.fold_left (fun a w -> a + int_of_nat w) 0 ws in
+    show_bool (DesugarSem.free_b sm f) ^ " " ^ show_sem (DesugarSem.widen f (nat_of_int n) sm) ^ " "
+    ^ show_natlist (Stdlib.List.init n (fun c -> DesugarSem.orig ws (nat_of_int c)))
     | _ -> "!args");
   register "trreq" (function [f; fi; size] ->
     show_opt show_nat (Trials.trials_required (Wire_flat.flat_of_sexp f) (nat_of_sexp fi) (nat_of_sexp size)) | _ -> "!args");
